@@ -65,6 +65,10 @@ func workerMain(caseFile, resultFile string) {
 		os.Exit(exitInfra)
 	}
 
+	for i := 0; i < c.WarmRuns; i++ {
+		warmRun(c, w)
+	}
+
 	// Workloads draw inputs from the global math/rand source, seeded or not. Seed it so that a case
 	// is the same computation every time it is run (own every nondeterminism source).
 	rand.Seed(20260925)
@@ -464,3 +468,39 @@ func readAllBuffers(d *driver.Driver) []Blob {
 }
 
 var _ = sim.VTimeInSec(0)
+
+
+// warmRun runs the case's program once on a platform of its own and throws the result away (Case.WarmRuns).
+func warmRun(c Case, w *Workload) {
+	rand.Seed(20260925)
+	stage("warm")
+	numGPUs := 0
+	for _, g := range c.GPUs {
+		if g > numGPUs {
+			numGPUs = g
+		}
+	}
+	var p *Platform
+	if c.Mode == "emu" {
+		p = BuildEmu(numGPUs, parseArch(c.Arch), c.Parallel)
+	} else {
+		p = BuildTiming(numGPUs, c.GPUType, c.Knobs, c.Parallel)
+	}
+	gpus := append([]int{}, c.GPUs...)
+	if c.Unified {
+		gpus = []int{p.Driver.CreateUnifiedGPU(nil, gpus)}
+	}
+	b := w.New(p.Driver, parseArch(c.Arch), c.Params)
+	b.SelectGPU(gpus)
+	if c.UM {
+		b.SetUnifiedMemory()
+	}
+	done := make(chan struct{})
+	hangPlatform = p
+	go watchDeadlock(done, p.Driver)
+	p.Driver.Run()
+	b.Run()
+	waitEngineIdle(p)
+	close(done)
+	p.Driver.Terminate()
+}
